@@ -1,4 +1,6 @@
 From Coq Require Extraction ExtrOcamlBasic.
-From GV_receiver Require Import Model.
+From GV_receiver Require Import Model Code.
 Extraction Language OCaml.
-Extraction "model.ml" run.
+(* the driver calls [run]; tools/build_domain.sh appends  let run = run2  when the extracted file defines run2:
+   case kind 2 goes through the translated program (Code.v), everything else is Model.run *)
+Extraction "model.ml" run2.
